@@ -73,6 +73,41 @@ def c06_bounded(tier, seed):
     part("parseAnchorName.property-sentences", {"for": "x_N is key x on component N; _x is the mark anchor of x; _x_N is rejected; bare _N is a NULL component",
                                                 "bound": f"{len(R.GRAMMAR_KEYS)} keys x 7 component numbers"}, clauses)
 
+    # ---- 1b. the library facts that contracts/c06parse.py ASSUMES about re / str (the deductive contracts of parseAnchorName rest on them) ----
+    def library_facts():
+        import itertools
+        import re
+
+        from ufo2ft.featureWriters.markFeatureWriter import LIGA_NUM_RE
+
+        alpha = ["_", "a", "1", "2", "٣", ".", "*", "Z"]
+        n, fails = 0, []
+        for k in range(0, (6 if thorough else 5) + 1):
+            for tup in itertools.product(alpha, repeat=k):
+                s = "".join(tup)
+                n += 1
+                m = LIGA_NUM_RE.match(s)
+                ends = len(s) > 0 and s[-1].isdecimal()
+                bad = None
+                if (m is not None) != ends:
+                    bad = "LIGA_NUM_RE.match(s) is None iff s is empty or its last character is no decimal digit"
+                elif m is not None:
+                    g = m.group(1)
+                    if not (len(g) >= 1 and s.endswith(g) and "_" not in g and g.isdecimal() and (len(s) == len(g) or not s[len(s) - len(g) - 1].isdecimal())):
+                        bad = "group(1) is the maximal non-empty decimal suffix (and holds no '_')"
+                    elif s.rstrip(g) != s[: len(s) - len(g)]:
+                        bad = "s.rstrip(group(1)) removes exactly group(1)"
+                    elif int(g) < 0:
+                        bad = "int(group(1)) >= 0"
+                if bad is None and "." not in s and re.sub(r"\..*", "", s) != s:
+                    bad = "re.sub(r'\\..*', '', s) == s when s has no '.'"
+                if bad:
+                    fails.append({"contract": None, "case": None, "clause": bad, "input": s, "observed": {"match": m.group(0) if m else None}})
+        return n, fails
+
+    part("parseAnchorName.library-model-facts", {"for": "the facts about LIGA_NUM_RE.match / group(1) / str.rstrip / re.sub that contracts/c06parse.py assumes (trusted library models)",
+                                                 "bound": f"all strings over an 8-letter alphabet (with a non-ASCII decimal digit) up to length {6 if thorough else 5}"}, library_facts)
+
     # ---- 2. graph colouring ---------------------------------------------------------------------------------
     nmax = 6 if thorough else 5
 
